@@ -784,7 +784,9 @@ impl Exec {
                     .iter()
                     .map(|i| self.overlays[i].0.as_ref().expect("overlay handle gone"))
                     .collect();
-                let params = SessionParams::default().overlay(ovs);
+                let witnessed = arg.get("w").and_then(|w| w.as_bool()).unwrap_or(false);
+                let base_params = if witnessed { driver::witness_params() } else { SessionParams::default() };
+                let params = base_params.overlay(ovs);
                 let params = match (params, verdict) {
                     (Ok(p), Ok(fresh)) => {
                         if !fresh {
@@ -838,13 +840,23 @@ impl Exec {
                 }
                 let actuals = driver::Db::<B3>::actuals(&session, &batch, &view)
                     .map_err(|m| viol("session-read", m))?;
-                let fin = session
+                let mut fin = session
                     .finish(actuals)
                     .map_err(|e| viol("finish-err", format!("finish failed: {e:#}")))?;
                 let writes = writes_of(&batch);
                 let mut after = view.clone();
                 Model::apply(&mut after, &writes);
                 let want = refmodel::root::<B3>(&after);
+                if witnessed {
+                    match fin.take_witness() {
+                        None => return Err(viol("witness-missing", format!("op {idx}: a witnessed session on chain {on:?} produced no witness"))),
+                        Some(w) => {
+                            check_witness(&w, &batch, &view, fin.prev_root().into_inner(), fin.root().into_inner(), want)
+                                .map_err(|m| viol("overlay-witness", format!("op {idx}: witness of a session on chain {on:?}: {m}")))?;
+                            self.out.goals.push("overlay-session-witnessed");
+                        }
+                    }
+                }
                 let ov = fin.into_overlay();
                 if self.flags.root && ov.root().into_inner() != want {
                     return Err(viol(
